@@ -31,7 +31,13 @@
    UPDATE 3: contract (A) of the exactness theorem is no longer assumed: it is DERIVED (every L) from "the solver is natural with
    respect to unitary changes of basis" = similarity invariance of the matrix exponential, exp(t U^-1 H U) = U^-1 exp(tH) U; the
    tensor-network content (H_eff = V^H Hdense V with V unitary, for the model's environment blocks and MPO.as_matrix) is proved --
-   see the section CONTRACT (A) REDUCED TO A FACT ABOUT THE MATRIX EXPONENTIAL at the end (C09_exact_complete_natural). *)
+   see the section CONTRACT (A) REDUCED TO A FACT ABOUT THE MATRIX EXPONENTIAL at the end (C09_exact_complete_natural).
+   UPDATE 4: the EXACTNESS clause is now proved for the TWO-SITE integrator as well (integrate_local_twosite, tol_split = 0, no quantum
+   numbers), every L >= 2 and every number of steps, relative to the analogous contracts on the ONE solver oracle the code uses for the
+   merged two-site and for the one-site problems, and to the exact-split contract per recorded split_mps_tensor call -- see the section
+   EXACTNESS ON A COMPLETE MANIFOLD, TWO-SITE INTEGRATOR at the end (C09_exact2_complete, C09_exact2_L2, C09_exact2_L3,
+   C09_exact2_complete_natural).  Still NOT proved: the variant with quantum numbers; that the floating-point Krylov exponential and the
+   LAPACK SVD meet the contracts. *)
 From Coq Require Import ZArith QArith Qcanon List Bool Lia.
 From PT Require Import Base.Scalar Base.Field Base.BigSum Base.Mx Model.Tensor Model.Operation Model.Sweeps
   Proofs.SweepsSched Proofs.SweepsFlow Proofs.SweepsCheck Proofs.SweepsExample
@@ -40,6 +46,8 @@ From PT Require Import Base.Scalar Base.Field Base.BigSum Base.Mx Model.Tensor M
   Proofs.ExactDefs Proofs.ExactLocal Proofs.ExactStep Proofs.ExactRun Proofs.ExactExample.
 From PT Require Import Model.MPSOps Proofs.MPSOpsBase Proofs.MPSOpsLaws
   Proofs.ExactGlobalDefs Proofs.ExactGlobalTop Proofs.ExactGlobalExample.
+From PT Require Import Proofs.OperationTwoSite Proofs.Exact2Defs Proofs.Exact2Local Proofs.Exact2Run Proofs.Exact2Global Proofs.Exact2Poly
+  Proofs.Exact2Profile Proofs.Exact2Example.
 Import ListNotations.
 
 Theorem C09_tdvp1_schedule_palindrome : forall L, rev (sched1 L) = sched1 L.
@@ -457,3 +465,230 @@ Proof. exact e_exact_natural. Qed.
 Example C09_exact_natural_as_matrix :
   exists M, MPSOps.as_matrix (o_A e_H) = Some M /\ forall v, Hvec 2 (o_A e_H) v = matvec M v.
 Proof. exact e_as_matrix. Qed.
+
+(* =====================================================================================================================
+   EXACTNESS ON A COMPLETE MANIFOLD, TWO-SITE INTEGRATOR (integrate_local_twosite with tol_split = 0, no quantum numbers; the model is
+   tdvp_twosite of Model/Sweeps.v: merge, forward two-site step, split, block update, backward one-site step), relative to the abstract
+   exact global flow G.  The code uses ONE local solver (_local_hamiltonian_step) for the merged two-site problem (merged MPO tensor
+   merge_mpo_tensor_pair, merged MPS tensor of shape d^2 x Ds i x Ds (i+2)) and for the one-site problem; so does the model (oracle kexp).
+   Contracts (Proofs/ExactDefs.v, Proofs/Exact2Defs.v; restricted to the tensors of the given operator and the bond profile Ds):
+     (F)   kexp_flowH        one-site problems: the solver keeps shapes, solver(0) = id, solver(t) o solver(s) = solver(s + t);
+     (F2)  kexp2_flowH       the same for the merged two-site problems;
+     (IL2) intertwine2_left  two-site solver on merge(Q, C) = merge(Q, one-site solver on C, left block updated by the model's
+                             contraction_operator_step_left Q Q W_i BL) for left-UNITARY Q;
+     (IR2) intertwine2_right two-site solver on merge(C, B) = merge(one-site solver on C with the right block updated by
+                             contraction_operator_step_right B B W_{i+1} BR, B) for right-unitary B;
+           -- these encode  H_pair (Q (x) 1) = (Q (x) 1) H_site  (PROVED for the model's local operators and merge functions:
+              C09_pair_operators_intertwine_left / _right below) plus "H1 V = V H2  =>  exp(t H1) V = V exp(t H2)";
+     (A2)  kexp2_global G i  if every tensor left of the pair (i, i+1) is left-unitary, every tensor right of it right-unitary and the
+                             environment blocks are the ones the model builds from them, then replacing the pair by ANY exact factorisation of
+                             the evolved merged tensor changes the dense state by G t;  needed at ONE pair only: i = min(m, L-2);
+     (G)   G_flow.
+   Per recorded split_mps_tensor call at the pair (i, i+1) (ex2_tr_ok / split_full): the split is EXACT (merging the two answers gives back
+   the tensor that was split: tol = 0), the kept bond has the dimension Ds (i+1) of the profile (for Ds j = min(d^j, d^(L-j)) this is
+   min(d*Ds i, d*Ds (i+2)) = all singular values: C09_min_profile_complete), and WHEN the factor that did not receive the singular values
+   is square it is unitary (isometric as the SVD guarantees, plus the other Gram matrix, a consequence over C).  Nothing is asked of a
+   non-square factor: the contract is weaker than what split_mps_tensor delivers.  No uniqueness of the SVD is needed.
+   Hypotheses on the run as for the single-site theorem: complete_profile with split site m, start tensors right of m right-unitary,
+   hdt + hdt = dt.  Conclusion:  nrm = the number reported by orthonormalize,  dense(result) = G (n * dt) (dense(normalised start state)).
+   Proof (Proofs/Exact2Phase.v): in the forward sweep the two-site step at (i, i+1) and the backward one-site step at i+1 cancel while
+   i+1 <= m (the split-off left tensor is square, hence unitary); at the complete pair (m, m+1) the two-site step is G(dt/2); right of it
+   the pending backward step at site i cancels against the next two-site step at (i, i+1) through the right-unitary tensor at i+1; the
+   rightmost pair (time dt) is G(dt) if it is the complete pair, otherwise half of it cancels the pending step; symmetric backward. *)
+
+(* the exact-split contract, spelled out *)
+Theorem C09_exact2_split_contract : forall (R : cring) d Dl k Dr left (Am A0 A1 : site R) q,
+  split_full d Dl k Dr left Am (A0, A1, q) <->
+  (wsite (d * d) Dl Dr Am ->
+   wsite d Dl k A0 /\ wsite d k Dr A1 /\ c04_merge_site A0 A1 = Am /\
+   (if left then k = (d * Dr)%nat -> runitary A1 else (d * Dl)%nat = k -> lunitary A0)).
+Proof. exact split_full_spec. Qed.
+Print Assumptions C09_exact2_split_contract.
+
+(* the model's local operators and merge functions intertwine: H_pair (Q (x) 1) = (Q (x) 1) H_site when Q Q^H = 1, and the mirror image *)
+Theorem C09_pair_operators_intertwine_left : forall (R : cring) d Dl k Dr Dwl Dwm Dwr (BL BR : env R) (W0 W1 : osite R) (Q C : site R),
+  (0 < d)%nat -> (0 < Dwl)%nat -> (0 < Dwm)%nat -> (0 < Dwr)%nat -> wsite d Dl k Q -> lcoiso Q -> wsite d k Dr C ->
+  osite_struct d W0 -> osite_struct d W1 -> osite_ok d Dwl Dwm W0 -> osite_ok d Dwm Dwr W1 ->
+  wenv Dwl Dl Dl BL -> wenv Dwr Dr Dr BR ->
+  apply_local_hamiltonian BL BR (c04_merge_osite W0 W1) (c04_merge_site Q C) =
+  c04_merge_site Q (apply_local_hamiltonian (contraction_operator_step_left Q Q W0 BL) BR W1 C).
+Proof. exact alh2_intertwine_left. Qed.
+Print Assumptions C09_pair_operators_intertwine_left.
+
+Theorem C09_pair_operators_intertwine_right : forall (R : cring) d Dl k Dr Dwl Dwm Dwr (BL BR : env R) (W0 W1 : osite R) (C B : site R),
+  (0 < d)%nat -> (0 < Dwl)%nat -> (0 < Dwm)%nat -> (0 < Dwr)%nat -> wsite d Dl k C -> wsite d k Dr B -> rcoiso B ->
+  osite_struct d W0 -> osite_struct d W1 -> osite_ok d Dwl Dwm W0 -> osite_ok d Dwm Dwr W1 ->
+  wenv Dwl Dl Dl BL -> wenv Dwr Dr Dr BR ->
+  apply_local_hamiltonian BL BR (c04_merge_osite W0 W1) (c04_merge_site C B) =
+  c04_merge_site (apply_local_hamiltonian BL (contraction_operator_step_right B B W1 BR) W0 C) B.
+Proof. exact alh2_intertwine_right. Qed.
+Print Assumptions C09_pair_operators_intertwine_right.
+
+(* L = 2: a single pair, the schedule is the single call K2_0(dt): the two-site solver IS the global flow; contracts (F2), (A2), (G) and
+   the exact-split contract only *)
+Theorem C09_exact2_L2 : forall (R : cring) orth split (kexp : kexp_t R) (H : mpo R) psi dt hdt n d DW G A1 qD1 nrm tr,
+  let Ds := fun j => if Nat.eqb j 1 then d else 1%nat in
+  length (o_A H) = 2%nat ->
+  tdvp_twosite orth split kexp H psi dt hdt n = Some (A1, qD1, nrm, tr) ->
+  (0 < d)%nat -> (forall j, (j < 2)%nat -> osite_ok d (DW j) (DW (S j)) (nth j (o_A H) [])) -> DW 0%nat = 1%nat -> DW 2%nat = 1%nat ->
+  kexp2_flowH (o_A H) d Ds DW kexp -> kexp2_global (o_A H) d Ds G 0 kexp -> G_flow (o_A H) d G ->
+  wsite d 1 d (nth 0 (m_A (fst (orth psi))) []) -> wsite d d 1 (nth 1 (m_A (fst (orth psi))) []) ->
+  ex2_tr_ok split d Ds (rev tr) ->
+  nrm = snd (orth psi) /\ dense d 2 A1 = G (nmul n dt) (dense d 2 (m_A (fst (orth psi)))).
+Proof. exact tdvp2_exact_L2. Qed.
+Print Assumptions C09_exact2_L2.
+
+(* L = 3, bond dimensions 1, d, d, 1 (split site 1, complete pair (1, 2)) *)
+Theorem C09_exact2_L3 : forall (R : cring) orth split (kexp : kexp_t R) (H : mpo R) psi dt hdt n d DW G A1 qD1 nrm tr,
+  let Ds := fun j => if Nat.eqb j 1 then d else if Nat.eqb j 2 then d else 1%nat in
+  length (o_A H) = 3%nat ->
+  tdvp_twosite orth split kexp H psi dt hdt n = Some (A1, qD1, nrm, tr) ->
+  (0 < d)%nat -> (forall j, (j < 3)%nat -> osite_ok d (DW j) (DW (S j)) (nth j (o_A H) [])) -> DW 0%nat = 1%nat -> DW 3%nat = 1%nat ->
+  kadd R hdt hdt = dt ->
+  kexp_flowH (o_A H) d Ds DW kexp -> kexp2_flowH (o_A H) d Ds DW kexp ->
+  intertwine2_left (o_A H) d Ds DW kexp -> intertwine2_right (o_A H) d Ds DW kexp ->
+  kexp2_global (o_A H) d Ds G 1 kexp -> G_flow (o_A H) d G ->
+  wsite d 1 d (nth 0 (m_A (fst (orth psi))) []) -> wsite d d d (nth 1 (m_A (fst (orth psi))) []) ->
+  wsite d d 1 (nth 2 (m_A (fst (orth psi))) []) -> runitary (nth 2 (m_A (fst (orth psi))) []) ->
+  ex2_tr_ok split d Ds (rev tr) ->
+  nrm = snd (orth psi) /\ dense d 3 A1 = G (nmul n dt) (dense d 3 (m_A (fst (orth psi)))).
+Proof. exact tdvp2_exact_L3. Qed.
+Print Assumptions C09_exact2_L3.
+
+(* every L >= 2, every number of steps, every complete bond profile / split site m *)
+Theorem C09_exact2_complete : forall (R : cring) orth split (kexp : kexp_t R) (H : mpo R) psi dt hdt n d Ds DW m G A1 qD1 nrm tr,
+  let L := length (o_A H) in
+  tdvp_twosite orth split kexp H psi dt hdt n = Some (A1, qD1, nrm, tr) ->
+  (0 < d)%nat -> (forall j, (j < L)%nat -> osite_ok d (DW j) (DW (S j)) (nth j (o_A H) [])) ->
+  DW 0%nat = 1%nat -> DW L = 1%nat -> complete_profile (o_A H) d Ds m -> kadd R hdt hdt = dt ->
+  kexp_flowH (o_A H) d Ds DW kexp -> kexp2_flowH (o_A H) d Ds DW kexp ->
+  intertwine2_left (o_A H) d Ds DW kexp -> intertwine2_right (o_A H) d Ds DW kexp ->
+  kexp2_global (o_A H) d Ds G (Nat.min m (L - 2)) kexp -> G_flow (o_A H) d G ->
+  (forall j, (j < L)%nat -> wsite d (Ds j) (Ds (S j)) (nth j (m_A (fst (orth psi))) [])) ->
+  (forall j, (m < j < L)%nat -> runitary (nth j (m_A (fst (orth psi))) [])) ->
+  ex2_tr_ok split d Ds (rev tr) ->
+  (2 <= L)%nat /\ nrm = snd (orth psi) /\ dense d L A1 = G (nmul n dt) (dense d L (m_A (fst (orth psi)))).
+Proof. exact tdvp2_exact. Qed.
+Print Assumptions C09_exact2_complete.
+
+(* the natural complete profile Ds j = min(d^j, d^(L-j)) meets the hypotheses: it is a complete profile with split site (L-1)/2, the
+   complete pair lies inside the chain, and the middle bond of every pair has the dimension min(d*Ds i, d*Ds (i+2)) = the number of
+   singular values split_mps_tensor keeps at tol = 0 *)
+Theorem C09_min_profile_complete : forall (R : cring) (Hs : list (osite R)) d, (0 < d)%nat -> (2 <= length Hs)%nat ->
+  let L := length Hs in let m := ((L - 1) / 2)%nat in
+  complete_profile Hs d (minDs d L) m /\ (S m < L)%nat /\
+  forall i, (S i < L)%nat -> minDs d L (S i) = Nat.min (d * minDs d L i) (d * minDs d L (S (S i))).
+Proof. exact min_profile_complete. Qed.
+Print Assumptions C09_min_profile_complete.
+
+(* ---------------- contract (A2) reduced to a fact about the matrix exponential ----------------
+   solver2_natural G i kexp (Proofs/Exact2Global.v): for all well-shaped blocks BL, BR and every UNITARY map E (linear, inner-product preserving,
+   two-sided inverse) from the merged pair tensors of shape d^2 x Ds i x Ds (i+2) onto the vectors of length d^L: if
+   E (apply_local_hamiltonian BL BR (merge W_i W_{i+1}) X) = Hdense * (E X) for all X, then E (kexp p BL BR (merge W_i W_{i+1}) X t) = G t (E X)
+   -- the similarity invariance of the matrix exponential under unitaries, as for the single-site integrator.  (A2) FOLLOWS when the bond inside
+   the pair is complete from the right, Ds (m+1) = d * Ds (m+2) (true for the pair (m, m+1) of a complete profile with m+1 < L):  the
+   tensor-network content is proved by reduction to C09_complete_frames_unitary_embedding -- every merged tensor is merge(unm M, I) with I the
+   right-unitary identity tensor, M |-> unm M is unitary, and the two-site operator is merge(one-site operator, I) by
+   C09_pair_operators_intertwine_right. *)
+Theorem C09_natural2_implies_global : forall (R : cring) (Hs : list (osite R)) d Ds DW m,
+  (0 < d)%nat -> (forall j, (j < length Hs)%nat -> osite_ok d (DW j) (DW (S j)) (nth j Hs [])) ->
+  (forall j, (j < length Hs)%nat -> osite_struct d (nth j Hs [])) -> (forall j, (0 < DW j)%nat) ->
+  DW 0%nat = 1%nat -> DW (length Hs) = 1%nat -> Ds 0%nat = 1%nat -> Ds (length Hs) = 1%nat -> (S m < length Hs)%nat ->
+  Ds (S m) = (d * Ds (S (S m)))%nat ->
+  forall G (kexp : kexp_t R), solver2_natural Hs d Ds DW G m kexp -> kexp2_global Hs d Ds G m kexp.
+Proof. exact natural2_global. Qed.
+Print Assumptions C09_natural2_implies_global.
+
+(* the main theorem with (A2) replaced by the naturality contract (split site m with m+1 < L: no loss for Ds j = min(d^j, d^(L-j))) *)
+Theorem C09_exact2_complete_natural : forall (R : cring) orth split (kexp : kexp_t R) (H : mpo R) psi dt hdt n d Ds DW m G A1 qD1 nrm tr,
+  let L := length (o_A H) in
+  tdvp_twosite orth split kexp H psi dt hdt n = Some (A1, qD1, nrm, tr) ->
+  (0 < d)%nat -> (forall j, (j < L)%nat -> osite_ok d (DW j) (DW (S j)) (nth j (o_A H) [])) ->
+  (forall j, (j < L)%nat -> osite_struct d (nth j (o_A H) [])) -> (forall j, (0 < DW j)%nat) ->
+  DW 0%nat = 1%nat -> DW L = 1%nat -> complete_profile (o_A H) d Ds m -> (S m < L)%nat -> kadd R hdt hdt = dt ->
+  kexp_flowH (o_A H) d Ds DW kexp -> kexp2_flowH (o_A H) d Ds DW kexp ->
+  intertwine2_left (o_A H) d Ds DW kexp -> intertwine2_right (o_A H) d Ds DW kexp ->
+  solver2_natural (o_A H) d Ds DW G m kexp -> G_flow (o_A H) d G ->
+  (forall j, (j < L)%nat -> wsite d (Ds j) (Ds (S j)) (nth j (m_A (fst (orth psi))) [])) ->
+  (forall j, (m < j < L)%nat -> runitary (nth j (m_A (fst (orth psi))) [])) ->
+  ex2_tr_ok split d Ds (rev tr) ->
+  (2 <= L)%nat /\ nrm = snd (orth psi) /\ dense d L A1 = G (nmul n dt) (dense d L (m_A (fst (orth psi)))).
+Proof. exact tdvp2_exact_natural. Qed.
+Print Assumptions C09_exact2_complete_natural.
+
+Theorem C09_exact2_L2_natural : forall (R : cring) orth split (kexp : kexp_t R) (H : mpo R) psi dt hdt n d DW G A1 qD1 nrm tr,
+  let Ds := fun j => if Nat.eqb j 1 then d else 1%nat in
+  length (o_A H) = 2%nat ->
+  tdvp_twosite orth split kexp H psi dt hdt n = Some (A1, qD1, nrm, tr) ->
+  (0 < d)%nat -> (forall j, (j < 2)%nat -> osite_ok d (DW j) (DW (S j)) (nth j (o_A H) [])) ->
+  (forall j, (j < 2)%nat -> osite_struct d (nth j (o_A H) [])) -> (forall j, (0 < DW j)%nat) -> DW 0%nat = 1%nat -> DW 2%nat = 1%nat ->
+  kexp2_flowH (o_A H) d Ds DW kexp -> solver2_natural (o_A H) d Ds DW G 0 kexp -> G_flow (o_A H) d G ->
+  wsite d 1 d (nth 0 (m_A (fst (orth psi))) []) -> wsite d d 1 (nth 1 (m_A (fst (orth psi))) []) ->
+  ex2_tr_ok split d Ds (rev tr) ->
+  nrm = snd (orth psi) /\ dense d 2 A1 = G (nmul n dt) (dense d 2 (m_A (fst (orth psi)))).
+Proof. exact tdvp2_exact_L2_natural. Qed.
+Print Assumptions C09_exact2_L2_natural.
+
+Theorem C09_exact2_L3_natural : forall (R : cring) orth split (kexp : kexp_t R) (H : mpo R) psi dt hdt n d DW G A1 qD1 nrm tr,
+  let Ds := fun j => if Nat.eqb j 1 then d else if Nat.eqb j 2 then d else 1%nat in
+  length (o_A H) = 3%nat ->
+  tdvp_twosite orth split kexp H psi dt hdt n = Some (A1, qD1, nrm, tr) ->
+  (0 < d)%nat -> (forall j, (j < 3)%nat -> osite_ok d (DW j) (DW (S j)) (nth j (o_A H) [])) ->
+  (forall j, (j < 3)%nat -> osite_struct d (nth j (o_A H) [])) -> (forall j, (0 < DW j)%nat) -> DW 0%nat = 1%nat -> DW 3%nat = 1%nat ->
+  kadd R hdt hdt = dt ->
+  kexp_flowH (o_A H) d Ds DW kexp -> kexp2_flowH (o_A H) d Ds DW kexp ->
+  intertwine2_left (o_A H) d Ds DW kexp -> intertwine2_right (o_A H) d Ds DW kexp ->
+  solver2_natural (o_A H) d Ds DW G 1 kexp -> G_flow (o_A H) d G ->
+  wsite d 1 d (nth 0 (m_A (fst (orth psi))) []) -> wsite d d d (nth 1 (m_A (fst (orth psi))) []) ->
+  wsite d d 1 (nth 2 (m_A (fst (orth psi))) []) -> runitary (nth 2 (m_A (fst (orth psi))) []) ->
+  ex2_tr_ok split d Ds (rev tr) ->
+  nrm = snd (orth psi) /\ dense d 3 A1 = G (nmul n dt) (dense d 3 (m_A (fst (orth psi)))).
+Proof. exact tdvp2_exact_L3_natural. Qed.
+Print Assumptions C09_exact2_L3_natural.
+
+(* the first-order polynomial solver  kexp_p(t) X = X + t * apply_local_hamiltonian BL BR W X  (one function for both kinds of local problem)
+   meets (IL2), (IR2) and the naturality contract for EVERY operator chain, over any cring; it meets (F), (F2) when the local operators are
+   nilpotent of order 2 (Proofs/Exact2Poly.v) *)
+Theorem C09_poly_solver_intertwines : forall (R : cring) (Hs : list (osite R)) d Ds DW,
+  (0 < d)%nat -> (forall j, (j < length Hs)%nat -> osite_ok d (DW j) (DW (S j)) (nth j Hs [])) ->
+  (forall j, (j < length Hs)%nat -> osite_struct d (nth j Hs [])) -> (forall j, (0 < DW j)%nat) ->
+  intertwine2_left Hs d Ds DW (kexp_p R) /\ intertwine2_right Hs d Ds DW (kexp_p R).
+Proof. exact poly_intertwines. Qed.
+Print Assumptions C09_poly_solver_intertwines.
+
+Theorem C09_poly_solver_natural2 : forall (R : cring) (Hs : list (osite R)) d Ds DW,
+  (0 < d)%nat -> (forall j, (j < length Hs)%nat -> osite_ok d (DW j) (DW (S j)) (nth j Hs [])) ->
+  (forall j, (j < length Hs)%nat -> osite_struct d (nth j Hs [])) -> (forall j, (0 < DW j)%nat) ->
+  forall (G : R -> list R -> list R) i, (S i < length Hs)%nat ->
+  (forall t v, length v = length (words d (length Hs)) -> G t v = vadd v (vscale t (Hvec d Hs v))) ->
+  solver2_natural Hs d Ds DW G i (kexp_p R).
+Proof. exact poly_natural2. Qed.
+Print Assumptions C09_poly_solver_natural2.
+
+(* ---------------- non-vacuity of C09_exact2_complete_natural ----------------
+   Proofs/Exact2Example.v: L = 4, d = 2, bond dimensions 1, 2, 4, 2, 1 (split site m = 1, complete pair (1, 2)), rational entries, 2 steps with
+   dt = 1/3;  H = sigma^+ (x) sigma^+ (x) sigma^+ (x) sigma^+ as an MPO (H^2 = 0);  solver = kexp_p (exact: the one-site and the merged two-site
+   local operators are nilpotent for ALL environment blocks, over any cring);  Gx4 t v = v + t * Hdense v = (v_0 + t v_15, v_1, ..);  every
+   contract (F), (F2), (IL2), (IR2), naturality at the pair 1, (G) is proved for ALL arguments over any cring;  split oracle = a rational exact
+   split through fixed rational unitaries (per-call contracts evaluated by the kernel on the recorded trace: 38 calls, 10 splits);  orth
+   oracle = division of the first tensor by 2, reported norm 2.  The run exercises phase 1, both passages of the complete pair, the pending
+   backward step through the rightmost pair and phase 4. *)
+Theorem C09_nilpotent_solver_contracts2 : forall (R : cring) Ds,
+  kexp_flowH (Hsx4 R) 2 Ds DWx (kexp_p R) /\ kexp2_flowH (Hsx4 R) 2 Ds DWx (kexp_p R) /\
+  (forall i, (S i < 4)%nat -> solver2_natural (Hsx4 R) 2 Ds DWx (Gx4 R) i (kexp_p R)) /\ G_flow (Hsx4 R) 2 (Gx4 R).
+Proof. exact e4_contracts. Qed.
+Print Assumptions C09_nilpotent_solver_contracts2.
+
+Example C09_exact2_nonvacuous :
+  (2 <= 4)%nat /\ rn e4_run = snd (x_orth e4_Psi) /\
+  dense 2 4 (rA e4_run) = Gx4 Qcring (nmul e4_steps e4_dt) (dense 2 4 (m_A (fst (x_orth e4_Psi)))).
+Proof. exact e4_exact. Qed.
+(* ... the dense state after the run differs from the start, the kernel computes the same conclusion, the reported norm is 2, 38 calls were
+   traced, 10 of them exact splits, and the solver calls are two copies of the two-site schedule *)
+Example C09_exact2_nontrivial :
+  negb (list_eqb (keqb Qcring) (dense 2 4 (rA e4_run)) (dense 2 4 (m_A (fst (x_orth e4_Psi))))) &&
+  list_eqb (keqb Qcring) (dense 2 4 (rA e4_run)) (Gx4 Qcring (nmul e4_steps e4_dt) (dense 2 4 (m_A (fst (x_orth e4_Psi))))) &&
+  keqb Qcring (rn e4_run) (xq 2 1) && Nat.eqb (length (rt e4_run)) 38 &&
+  Nat.eqb (length (filter (fun t => match c_kind (t_call t) with SPLITL | SPLITR => true | _ => false end) (rt e4_run))) 10 &&
+  list_eqb call_eqb (solver_calls (rt e4_run)) (ncat 2 (sched2 4)) = true.
+Proof. exact e4_nontrivial. Qed.
